@@ -3,7 +3,7 @@
 set -e
 cd "$(dirname "$0")/.."
 pids=()
-for ev in "simA plain" "simA asan" "simA plainuc" "simC plain" "simC asan" "simC plainuc" "simB sched" "simB sched0"; do
+for ev in "simA plain" "simA asan" "simA plainuc" "simA plainrel" "simC plain" "simC asan" "simC plainuc" "simC plainrel" "simB sched" "simB sched0"; do
     python3 tools/build.py $ev >/dev/null &
     pids+=($!)
 done
